@@ -159,7 +159,13 @@ class SpecMap:
         xs = z3.simplify(xs)
         psub = list(zip(self.params, params))
         for cname, m in list(path.maps_used.items()):
-            if m.get("kind") == "any" or not z3.simplify(m["xs"]).eq(xs):
+            if m.get("kind") == "any":
+                continue
+            same = z3.simplify(m["xs"]).eq(xs)
+            if not same:
+                # the two lists may be provably (not syntactically) equal, e.g. after a loop exit `cur == flat(xs)`
+                same = path.try_prove(m["xs"] == xs, 2000)
+            if not same:
                 continue
             done = path.ctx.__dict__.setdefault("map_ext_done", set())
             key = (cname, self.name, xs.get_id(), id(path), tuple(p.get_id() for p in params))
@@ -172,14 +178,15 @@ class SpecMap:
             ckeep = z3.BoolVal(True) if m.get("keep") is None else z3.substitute(m["keep"], (m["var"], v))
             skeep = z3.BoolVal(True) if self.keep is None else z3.substitute(self.keep, (self.var, v), *psub)
             facts = [V.vcontains(xs, v)]
-            ent = path.ctx.__dict__.get("elem_shapes", {}).get(xs.get_id())
+            ent = path.ctx.__dict__.get("elem_shapes", {}).get(xs.get_id()) or \
+                path.ctx.__dict__.get("elem_shapes", {}).get(z3.simplify(m["xs"]).get_id())
             if ent is not None:
                 facts.append(ent(v))
             site = m["site"].split(":", 1)[1] if ":" in m["site"] else m["site"]
             # auxiliary lemma (map extensionality). A failed attempt is not a failed obligation: the postcondition
             # that needs the equality then fails on its own and carries the counter-model.
             if path.try_prove(z3.Implies(z3.And(*facts), z3.And(ckeep == skeep, z3.Implies(skeep, cbody == sbody)))):
-                path.assume(m["fn"](xs) == self.fn(xs, *params))
+                path.assume(m["fn"](m["xs"]) == self.fn(xs, *params))
                 path.ctx.__dict__.setdefault("lemmas_proved", []).append(f"map-ext@{site}")
         return self.fn(xs, *params)
 
